@@ -101,8 +101,26 @@ def nanfill(chk, prog):
     it = Interp(prog)
     i0, i1 = P.sym("i0"), P.sym("i1")
     env = Env(f.module, f)
-    env.vars["interval"] = (i0, i1)
     kw = dict(module=QUAT, function=f.qname, line=call.lineno)
+    # the loop over the NaN intervals that contains the store: bind its variable(s) to the symbolic interval and run the statements before the store
+    loop = next((n for n in ast.walk(f.node) if isinstance(n, ast.For) and any(x is target for s_ in n.body for x in ast.walk(s_))), None)
+    if loop is None:
+        chk.error("NANFILL: the slerp store of slerp_nan is not inside a loop over the NaN intervals (anchor changed)")
+        return
+    if isinstance(loop.target, ast.Name):
+        env.vars[loop.target.id] = (i0, i1)
+    elif isinstance(loop.target, (ast.Tuple, ast.List)) and len(loop.target.elts) == 2 and all(isinstance(e, ast.Name) for e in loop.target.elts):
+        env.vars[loop.target.elts[0].id], env.vars[loop.target.elts[1].id] = i0, i1
+    else:
+        chk.error("NANFILL: loop variable of the interval loop is neither a name nor a pair of names")
+        return
+    for s_ in loop.body:
+        if any(x is target for x in ast.walk(s_)):
+            break
+        try:
+            it.exec_block([s_], env)          # hoisted locals (weights, neighbours ...) the store refers to
+        except Exception:
+            pass
 
     def law():
         sl = target.slice
@@ -111,8 +129,21 @@ def nanfill(chk, prog):
         lo, hi = it.eval(sl.lower, env), it.eval(sl.upper, env)
         args = list(call.args)
         kws = {k.arg: k.value for k in call.keywords}
-        pa, qa = args[0], args[1]
-        ta = args[2] if len(args) > 2 else kws.get("t_array")
+        callee = prog.func(QUAT + "::slerp")
+        names = callee.params
+        bound = dict(zip(names, args))
+        bound.update(kws)
+        pa, qa, ta = bound.get(names[0]), bound.get(names[1]), bound.get(names[2]) if len(names) > 2 else kws.get("t_array")
+        if pa is None or qa is None:
+            return (None, "endpoints of the slerp call not found")
+        if isinstance(ta, ast.Name):         # weights hoisted into a local of the loop body / of the method
+            for d_ in ast.walk(f.node):
+                if isinstance(d_, ast.Assign) and isinstance(d_.targets[0], ast.Name) and d_.targets[0].id == ta.id:
+                    ta = d_.value
+        if isinstance(pa, ast.Name) or isinstance(qa, ast.Name):
+            defs = {d_.targets[0].id: d_.value for d_ in ast.walk(f.node) if isinstance(d_, ast.Assign) and isinstance(d_.targets[0], ast.Name)}
+            pa = defs.get(pa.id, pa) if isinstance(pa, ast.Name) else pa
+            qa = defs.get(qa.id, qa) if isinstance(qa, ast.Name) else qa
         pi = it.eval(pa.slice, env) if isinstance(pa, ast.Subscript) else None
         qi = it.eval(qa.slice, env) if isinstance(qa, ast.Subscript) else None
         # t_array = np.linspace(0, 1, n)[1:-1]
@@ -220,35 +251,54 @@ def jumps_twin(chk, prog):
     chk.touch(a)
     chk.touch(b)
 
-    def summarise(f, arr_expr):
-        info = {}
+    from sa.facts import PHI, LOOP_DESC
+    import re
+
+    def canon(v, depth=0):
+        """expand join names and loop-variable names into what they stand for"""
+        def rep(m):
+            name = m.group(0)
+            if name in PHI and depth < 6:
+                return "phi{%s}" % " | ".join(sorted(canon(x, depth + 1) for x in PHI[name]))
+            return name
+        v = re.sub(r"phi:[0-9a-f]{10}", rep, v)
+
+        def rep2(m):
+            name = m.group(0)
+            return canon(LOOP_DESC[name], depth + 1) if name in LOOP_DESC and depth < 6 else name
+        return re.sub(r"\?iter@\d+#\d+", rep2, v)
+
+    def summarise(f, arr_names):
+        info = {"neg": []}
 
         class G(Facts):
             def s_For(self2, s, st):
                 info["iter"] = self2.vn(s.iter, st)
-                info["neg"] = [ast.unparse(x.target.slice).replace(" ", "") + ("*=" + ast.unparse(x.value)) for x in s.body if isinstance(x, ast.AugAssign) and isinstance(x.target, ast.Subscript)]
-                info["target_base"] = [ast.unparse(x.target.value) for x in s.body if isinstance(x, ast.AugAssign) and isinstance(x.target, ast.Subscript)]
+                body_st = dict(st)
+                self2.assign_loop_target(s.target, s.iter, body_st)
+                for x in s.body:
+                    if isinstance(x, ast.AugAssign) and isinstance(x.target, ast.Subscript) and isinstance(x.target.slice, ast.Slice):
+                        sl = x.target.slice
+                        lo = self2.vn(sl.lower, body_st) if sl.lower is not None else "-"
+                        hi = self2.vn(sl.upper, body_st) if sl.upper is not None else "-"
+                        info["neg"].append((canon(lo), canon(hi), type(x.op).__name__, self2.vn(x.value, body_st)))
                 return super().s_For(s, st)
         G(f, prog).analyse()
         return info
     ia, ib = summarise(a, "self.array"), summarise(b, "q")
-    import re
-    from sa.facts import PHI
 
-    def expand(v, depth=0):
-        def rep(m):
-            name = m.group(0)
-            if name in PHI and depth < 6:
-                return "phi{%s}" % " | ".join(sorted(expand(x, depth + 1) for x in PHI[name]))
-            return name
-        return re.sub(r"phi:[0-9a-f]{10}", rep, v)
-    va = expand(ia.get("iter") or "").replace("S:array", "ARR")
-    vb = expand(ib.get("iter") or "").replace("P:q", "ARR")
+    def norm_names(v):
+        return v.replace("S:array", "ARR").replace("P:q", "ARR")
+    va, vb = norm_names(canon(ia.get("iter") or "")), norm_names(canon(ib.get("iter") or ""))
+    na = [tuple(norm_names(x) for x in t) for t in ia["neg"]]
+    nb = [tuple(norm_names(x) for x in t) for t in ib["neg"]]
     site = a.ref + " ~ " + b.ref
-    if va and va == vb and ia.get("neg") == ib.get("neg") and ia.get("neg"):
+    if not va or not vb or not na or not nb:
+        chk.error("TWIN.jumps: the loop that negates the slices between jump pairs was not found in %s (cannot compare the two copies)" % (a.ref if (not va or not na) else b.ref))
+    elif va == vb and na == nb:
         chk.record("TWIN.jumps", site, "same jump pairs and the same slices are negated")
     else:
-        chk.record("TWIN.jumps", site, "same jump pairs and the same slices are negated", verdict="VIOLATION", detail="%s vs %s; %s vs %s" % (va[:120], vb[:120], ia.get("neg"), ib.get("neg")))
+        chk.record("TWIN.jumps", site, "same jump pairs and the same slices are negated", verdict="VIOLATION", detail="%s vs %s; %s vs %s" % (va[:120], vb[:120], na, nb))
         chk.finding("TWIN.jumps", ORI, "q_correct", "q_correct differs from QuaternionArray.remove_jumps",
                     "the two copies of the sign-jump removal no longer compute the same jump pairs / negate the same slices", line=b.node.lineno)
 
